@@ -674,6 +674,7 @@ pub fn generate(seed: u64, base: &Cfg) -> Program
         steps.push(Step::Batch(ops));
     }
     if g.r.chance(50) { steps.push(Step::Direct(WOp::Gc)); steps.push(Step::Direct(WOp::Poll)); }
+    if g.wr.contains(&1) && g.r.chance(60) { let n = g.r.range(1, 3); let t: Vec<Trig> = (0..n).map(|_| g.any_trig()).collect(); prog.wr_starting = dedup(t); }
     prog.callees = if g.c.syscalls { crate::sysfam::gen_callees(&mut g) } else { Vec::new() };
     prog.insts = g.insts;
     prog.frame_systems = fs;
